@@ -145,15 +145,55 @@ def last(headers: List[List[str]], name: str) -> Optional[str]:
 OFFERS = [None, b"chat, superchat", b"chat", b"superchat,chat ,x"]
 EXTS = [None, b"permessage-deflate", b"permessage-deflate; client_max_window_bits", b"x-unknown-ext"]
 
+# the container an application gives its `headers` in.  ASGI (and hypercorn.typing) say `Iterable[[bytes, bytes]]`: a list or a
+# tuple (of tuples or of lists) can be traversed again and again, an iterator / generator / generator expression / map object
+# yields its pairs ONCE.  The decision is rendered faithfully whichever of them the application chose (C11-12: a second
+# traversal of a one-shot iterable saw nothing - accepted, but without the extra headers).
+FORMS = ["list", "tuple", "lists", "iter", "generator", "genexpr", "map"]
+ONE_SHOT = ("iter", "generator", "genexpr", "map")
 
-def dec_msgs(d: list) -> List[Optional[dict]]:
+
+def _generator(pairs):
+    for pair in pairs:
+        yield pair
+
+
+def as_form(pairs: List[Tuple[bytes, bytes]], form: Optional[str]) -> Any:
+    if form == "tuple":
+        return tuple(pairs)
+    if form == "lists":
+        return [list(p) for p in pairs]
+    if form == "iter":
+        return iter(list(pairs))
+    if form == "generator":
+        return _generator(list(pairs))
+    if form == "genexpr":
+        return ((n, v) for n, v in list(pairs))
+    if form == "map":
+        return map(tuple, list(pairs))
+    return list(pairs)
+
+
+def hform(d: list) -> str:
+    """the container form of a decision's headers: ["accept", sub, headers, form?] / ["response", status, headers, chunks, form?]"""
+    if d and d[0] == "accept" and len(d) > 3 and d[3]:
+        return d[3]
+    if d and d[0] == "response" and len(d) > 4 and d[4]:
+        return d[4]
+    return "list"
+
+
+def dec_msgs(d: list, live: bool = True) -> List[Optional[dict]]:
+    """the messages of a decision; `live=False`: the headers as a plain list whatever the form (what the model is asked about,
+    and what can be looked at after the run - a one-shot iterable handed to the server is spent)"""
     k = d[0]
+    form = hform(d) if live else "list"
     if k == "accept":
         m: Dict[str, Any] = {"type": "websocket.accept"}
         if d[1] is not None:
             m["subprotocol"] = d[1]
         if d[2]:
-            m["headers"] = [(s2b(n), s2b(v)) for n, v in d[2]]
+            m["headers"] = as_form([(s2b(n), s2b(v)) for n, v in d[2]], form)
         return [m]
     if k == "close":
         m = {"type": "websocket.close"}
@@ -161,7 +201,7 @@ def dec_msgs(d: list) -> List[Optional[dict]]:
             m["code"] = d[1]
         return [m]
     if k == "response":
-        out: List[Optional[dict]] = [{"type": "websocket.http.response.start", "status": d[1], "headers": [(s2b(n), s2b(v)) for n, v in d[2]]}]
+        out: List[Optional[dict]] = [{"type": "websocket.http.response.start", "status": d[1], "headers": as_form([(s2b(n), s2b(v)) for n, v in d[2]], form)}]
         chunks = d[3]
         if not chunks:
             out.append({"type": "websocket.http.response.body"})
@@ -218,13 +258,19 @@ CLOSINGS = [["client_first", 1000], ["client_first", 1001], ["client_first", 300
 # by both protocols, so the stream is closed before any further bytes can reach it)
 
 
+def fsig(d: list) -> dict:
+    """signature part: the decision's headers came as a one-shot iterable"""
+    return {"one_shot_headers": True} if hform(d) in ONE_SHOT else {}
+
+
 def dclass(ds: List[list]) -> List[str]:
     out = []
     for d in ds:
         if d[0] == "accept":
-            out.append("accept" + (":sub=" + d[1] if d[1] is not None else "") + (":hdr=" + ",".join(n for n, _ in d[2]) if d[2] else ""))
+            out.append("accept" + (":sub=" + d[1] if d[1] is not None else "") + (":hdr=" + ",".join(n for n, _ in d[2]) if d[2] else "")
+                       + (":as=" + hform(d) if hform(d) != "list" else ""))
         elif d[0] == "response":
-            out.append(f"response:{d[1]}:{len(d[3])}")
+            out.append(f"response:{d[1]}:{len(d[3])}" + (":as=" + hform(d) if hform(d) != "list" else ""))
         else:
             out.append(":".join(str(x) for x in d))
     return out
@@ -311,10 +357,10 @@ def close_frame(code: Optional[int], seed: int) -> bytes:
     return ws.close(code)
 
 
-def direct_ops(case: dict) -> List[dict]:
+def direct_ops(case: dict, live: bool = True) -> List[dict]:
     ops: List[dict] = []
     for d in case["decisions"]:
-        for m in dec_msgs(d):
+        for m in dec_msgs(d, live):
             ops.append({"send": m})
     cl = case["closing"]
     k = cl[0]
@@ -346,8 +392,9 @@ def run_direct(ctx: Ctx, cases: List[dict]) -> None:
         out = []
         for case in cases:
             init = {"version": case["version"], "headers": [(s2b(n), s2b(v)) for n, v in case["headers"]]}
-            ops = direct_ops(case)
-            steps, lib = await S.drive_ws(init, ops, {})
+            steps, lib = await S.drive_ws(init, direct_ops(case), {})
+            # (the same operations with every `headers` as a list: the iterables handed to the stream are spent)
+            ops = direct_ops(case, live=False)
             prepared.append((init, ops, lib))
             out.append(steps)
         return out
@@ -444,15 +491,15 @@ def _monitor_lifecycle(ctx: Ctx, case: dict, steps: List[dict], ops: List[dict],
             heads = [e for e in o["events"] if e[0] == "response"]
             if exp["ok"]:
                 if o["error"] or len(heads) != 1 or heads[0][1] != exp["status"]:
-                    ctx.violation("accept_status", case, o, {**sig0, "decision": dclass([d])[0]})
+                    ctx.violation("accept_status", case, o, {**sig0, "decision": dclass([d])[0], **fsig(d)})
                 else:
                     why = check_accept_headers(heads[0][2], exp, key, lean_token, version)
                     if why:
-                        ctx.violation("accept_rendering", case, {"why": why, "headers": heads[0][2]}, sig0)
+                        ctx.violation("accept_rendering", case, {"why": why, "headers": heads[0][2], "headers_given_as": hform(d)}, {**sig0, **fsig(d)})
                     state = "CONNECTED"
             else:
                 if not o["error"] or o["events"] or o["state"] != "HANDSHAKE":
-                    ctx.violation("bad_accept_not_refused_cleanly", case, o, {**sig0, "why": exp["why"]})
+                    ctx.violation("bad_accept_not_refused_cleanly", case, o, {**sig0, "why": exp["why"], **fsig(d)})
                     state = o["state"]
         elif d[0] == "close":
             o = outs[0]
@@ -468,7 +515,7 @@ def _monitor_lifecycle(ctx: Ctx, case: dict, steps: List[dict], ops: List[dict],
             got_b = "".join(e[1] for e in evs if e[0] == "body")
             ends = sum(1 for e in evs if e[0] == "endBody")
             if any(o["error"] for o in outs) or len(heads) != 1 or heads[0][1] != d[1] or heads[0][2] != want_h or got_b != want_b or ends != 1:
-                ctx.violation("denial_response_exact", case, {"events": evs, "want": [d[1], want_h, want_b]}, {**sig0, "status": d[1]})
+                ctx.violation("denial_response_exact", case, {"events": evs, "want": [d[1], want_h, want_b], "headers_given_as": hform(d)}, {**sig0, "status": d[1], **fsig(d)})
             state = "HTTPCLOSED"
         elif d[0] == "crash":
             o = outs[0]
@@ -593,11 +640,11 @@ def run_e2e(ctx: Ctx, cases: List[dict]) -> None:
             exp = accept_expect(version if carrier == "h1" else "2", headers, d0)
             if exp["ok"]:
                 if status != exp["status"]:
-                    ctx.violation("accept_status", case, hs, {**sig0, "decision": dclass([d0])[0]})
+                    ctx.violation("accept_status", case, hs, {**sig0, "decision": dclass([d0])[0], **fsig(d0)})
                     continue
                 why = check_accept_headers(hs["headers"], exp, last(headers, "sec-websocket-key"), lean_token, "1.1" if carrier == "h1" else "2")
                 if why:
-                    ctx.violation("accept_rendering", case, {"why": why, "headers": hs["headers"]}, sig0)
+                    ctx.violation("accept_rendering", case, {"why": why, "headers": hs["headers"], "headers_given_as": hform(d0)}, {**sig0, **fsig(d0)})
                 if model is not None and carrier == "h1":
                     ctx.disagreements_checked += 1
                     tok = [v for n, v in hs["headers"] if n.lower() == "sec-websocket-accept"]
@@ -606,7 +653,7 @@ def run_e2e(ctx: Ctx, cases: List[dict]) -> None:
             else:
                 first_send = app["send"][0] if app["send"] else None
                 if first_send is None or first_send[1] == "ok" or status in (101, 200) and len(case["decisions"]) == 1:
-                    ctx.violation("bad_accept_not_refused_cleanly", case, {"send": app["send"], "status": status}, {**sig0, "why": exp["why"]})
+                    ctx.violation("bad_accept_not_refused_cleanly", case, {"send": app["send"], "status": status}, {**sig0, "why": exp["why"], **fsig(d0)})
                 if len(case["decisions"]) > 1 and case["decisions"][1][0] == "close" and status != 403:
                     ctx.violation("close_403", case, hs, {**sig0, "after": "refused_accept"})
                 continue
@@ -619,7 +666,7 @@ def run_e2e(ctx: Ctx, cases: List[dict]) -> None:
             got_h = [[n.lower(), v] for n, v in hs["headers"] if n.lower() not in ("date", "server", "alt-svc", "connection", "transfer-encoding")]
             want_b = "" if d0[1] in (204, 304) else "".join(d0[3])
             if status != d0[1] or got_h[:len(want_h)] != want_h or len(got_h) != len(want_h) or hs["body"] != want_b or not hs["complete"]:
-                ctx.violation("denial_response_exact", case, {"got": hs, "want": [d0[1], want_h, want_b]}, {**sig0, "status": d0[1]})
+                ctx.violation("denial_response_exact", case, {"got": hs, "want": [d0[1], want_h, want_b], "headers_given_as": hform(d0)}, {**sig0, "status": d0[1], **fsig(d0)})
             continue
         elif d0[0] == "crash":
             if status != 500:
@@ -713,6 +760,54 @@ def e2e_handshakes(rng: random.Random) -> List[dict]:
     return out
 
 
+# headers an application adds to its decision: one, several with a repeated name, and two sets that must be refused (a forbidden
+# name last - only a complete traversal finds it - and first)
+EXTRA_SETS = [[["x-extra", " 1 "]], [["x-session", "abc123"], ["set-cookie", "a=1; HttpOnly"], ["set-cookie", "b=2"]],
+              [["x-a", "1"], ["sec-websocket-protocol", "x"]], [[":status", "200"], ["x-a", "1"]]]
+
+
+def rotate_forms(cases: List[dict]) -> None:
+    """every generated decision that carries headers gives them in a container form chosen by its position (no random draw is
+    spent): every other one a list, the rest cycling through the other forms"""
+    others = [f for f in FORMS if f != "list"]
+    k = 0
+    for case in cases:
+        for d in case["decisions"]:
+            if (d[0] == "accept" and len(d) == 3 or d[0] == "response" and len(d) == 4) and d[2]:
+                d.append("list" if k % 2 == 0 else others[(k // 2) % len(others)])
+                k += 1
+
+
+def run_extra_tie(ctx: Ctx) -> None:
+    """function mode: `Handshake.accept(subprotocol, <iterable>)` of the source against `c11.extra` = the traversals of
+    `additional_headers` as extracted (`WsGuards.acceptExtraPasses`) run on the model of an iterable (HC/Stream/WsIter.lean);
+    the theorems `accept_extra_any_iterable` / `accept_any_iterable` are about exactly these traversals"""
+    try:
+        from hypercorn.protocol.ws_stream import Handshake
+        base = [(b"sec-websocket-key", KEY), (b"sec-websocket-version", b"13"), (b"sec-websocket-protocol", b"chat, superchat")]
+        own = {v: len(Handshake(list(base), v).accept(None, [])[1]) for v in ("1.1", "2")}
+    except Exception as e:      # the entry point has another shape: the tie of this one model function is not available
+        ctx.count("extra_tie", "unavailable:" + type(e).__name__)
+        return
+    sets = EXTRA_SETS + [[], [["x-a", "1"], ["x-b", "bad\nvalue"]], [["bad name", "1"], ["sec-websocket-protocol", "x"]]]
+    cases = [(v, form, hs) for v in ("1.1", "2") for form in FORMS for hs in sets]
+    model = ctx.model([{"cmd": "c11.extra", "headers": hs, "one_shot": form in ONE_SHOT} for _, form, hs in cases])
+    for i, (v, form, hs) in enumerate(cases):
+        ctx.evaluations += 1
+        ctx.count("extra_tie", form)
+        try:
+            got: Any = {"headers": [[b2s(n), b2s(x)] for n, x in Handshake(list(base), v).accept(None, as_form([(s2b(n), s2b(x)) for n, x in hs], form))[1][own[v]:]]}
+        except Exception as e:
+            got = {"error": type(e).__name__}
+        if model is not None:
+            ctx.disagreements_checked += 1
+            mo = model[i].get("ok") or {}
+            if {k: x for k, x in mo.items() if k != "passes"} != got:
+                ctx.disagree("c11.extra", {"layer": "extra_tie", "version": v, "headers": hs, "form": form}, model[i], got)
+            else:
+                ctx.traces_validated += 1
+
+
 def run(ctx: Ctx) -> None:
     rng = ctx.rng
     # ---------------- (a) direct: exhaustive lattice ----------------
@@ -763,8 +858,24 @@ def run(ctx: Ctx) -> None:
         for cl in CLOSINGS:
             dcases.append({"layer": "direct", "version": version, "headers": build_headers(st, None, None, False), "states": [st[n] for n in names],
                            "decisions": [["accept", None, []]], "closing": cl})
+    # the container form of the application's headers: every form x carrier (and a request-line version other than 1.1) x
+    # with / without subprotocol x the header sets, and the HTTP-response extension with headers in every form
+    offered = {n: "ok" for n in names}
+    for version in ("1.1", "2", "1.2"):
+        st = dict(offered) if carrier_of(version) == "h1" else {**{n: "absent" for n in names}, "sec-websocket-version": "ok"}
+        hs = build_headers(st, b"chat, superchat", None, False)
+        for form in FORMS:
+            for sub in (None, "chat"):
+                for extra in EXTRA_SETS:
+                    dcases.append({"layer": "direct", "version": version, "headers": hs, "states": [st[n] for n in names] + ["forms"],
+                                   "decisions": [["accept", sub, extra, form]], "closing": ["client_first", 1000]})
+            for rh in ([["www-authenticate", "Basic"]], [["x-a", " 1 "], ["x-a", "2"]]):
+                dcases.append({"layer": "direct", "version": version, "headers": hs, "states": [st[n] for n in names] + ["forms"],
+                               "decisions": [["response", 401, rh, ["no"], form]], "closing": ["abrupt"]})
+    rotate_forms(dcases)
     for j in range(0, len(dcases), 1000):
         run_direct(ctx, dcases[j:j + 1000])
+    run_extra_tie(ctx)
     # ---------------- (b) end to end ----------------
     ecases: List[dict] = []
     hsk = e2e_handshakes(rng)
@@ -795,6 +906,20 @@ def run(ctx: Ctx) -> None:
     for _ in range(ctx.budget(400, 3000)):
         h = rng.choice(valid)
         ecases.append({"layer": "e2e", **h, "worker": rng.choice(["asyncio", "trio"]), "decisions": gen_decisions(rng), "closing": rng.choice(CLOSINGS[:8])})
+    # the container form of the application's headers, end to end: every form x carrier x worker
+    for h in valid:
+        has_offer = any(n == "sec-websocket-protocol" for n, _ in h["headers"])
+        for worker in ("asyncio", "trio"):
+            for form in FORMS:
+                ecases.append({"layer": "e2e", **h, "hclass": h["hclass"] + ":headers_form", "worker": worker,
+                               "decisions": [["accept", "superchat" if has_offer else None, EXTRA_SETS[1], form]], "closing": ["client_first", 1000]})
+                if not has_offer:
+                    ecases.append({"layer": "e2e", **h, "hclass": h["hclass"] + ":headers_form", "worker": worker,
+                                   "decisions": [["response", 401, [["www-authenticate", "Basic"], ["x-a", "1"]], ["no"], form]], "closing": ["abrupt"]})
+                elif form in ONE_SHOT[:2]:
+                    ecases.append({"layer": "e2e", **h, "hclass": h["hclass"] + ":headers_form", "worker": worker,
+                                   "decisions": [["accept", None, EXTRA_SETS[2], form], ["close", None]], "closing": ["abrupt"]})
+    rotate_forms(ecases)
     run_e2e(ctx, ecases)
     # wsproto's own client handshake as oracle for the 101 (nonce generated by wsproto, so not reproducible byte for byte)
     oracle_cases = []
